@@ -532,6 +532,23 @@ bool Solver::RecallOrFindSolution(
 // Helper for Solve to separate out query setup.
 bool Solver::Solve_(const std::vector<const Binding*>& start_attrs,
                    const CFGNode* start_node) {
+  // A goal can only be part of a solution if at least one of its origins can
+  // be reached going backwards from the start node. Reject unreachable goals
+  // up front: the search below treats a state it is still working on as
+  // solvable, so a cycle in the CFG could otherwise "explain" such a goal.
+  for (const Binding* goal : start_attrs) {
+    bool origin_reachable = false;
+    for (const auto& origin : goal->origins()) {
+      if (program_->is_reachable(origin->where, start_node)) {
+        origin_reachable = true;
+        break;
+      }
+    }
+    if (!origin_reachable) {
+      query_metrics_.back().set_shortcircuited(true);
+      return false;
+    }
+  }
   // If there's multiple bindings, check that they're all possible before trying
   // to solve for all of them.
   if (start_attrs.size() > 1 && !CanHaveSolution(start_attrs, start_node)) {
